@@ -3,6 +3,7 @@ package netsim
 import (
 	"fmt"
 	"math/rand/v2"
+	"net/netip"
 )
 
 var Markers = []string{"FLAG", "alpha", "beta", "GET /", "passwd", "xyzzy"}
@@ -168,6 +169,31 @@ func Gen(r *rand.Rand, cfg GenConfig) *Spec {
 		twin := ConvSpec{Proto: "udp", Seed: r.Uint64(), Client: fmt.Sprintf("%s:%d", host, cp^1), Server: fmt.Sprintf("10.1.0.9:%d", sp^1), StartUS: long.StartUS + int64(1_000_000+r.IntN(20_000_000)), StepUS: 100}
 		twin.Msgs = []MsgSpec{{Dir: 0, Len: 9}, {Dir: 1, Len: 7, GapUS: 1000}}
 		spec.Convs = append(spec.Convs, long, twin)
+	}
+	if r.IntN(8) == 0 && len(spec.Convs) >= 1 {
+		// an address whose four bytes also occur, unaligned, where the addresses of
+		// another conversation's two hosts lie next to each other in a host table
+		for _, c := range spec.Convs {
+			if c.V6 {
+				continue
+			}
+			ca, err1 := netip.ParseAddrPort(c.Client)
+			sa, err2 := netip.ParseAddrPort(c.Server)
+			if err1 != nil || err2 != nil {
+				continue
+			}
+			a, b := ca.Addr().As4(), sa.Addr().As4()
+			if r.IntN(2) == 0 {
+				a, b = b, a
+			}
+			cat := append(a[:], b[:]...)
+			off := 1 + r.IntN(3)
+			ip := netip.AddrFrom4([4]byte{cat[off], cat[off+1], cat[off+2], cat[off+3]})
+			x := ConvSpec{Proto: "udp", Seed: r.Uint64(), Client: fmt.Sprintf("%s:%d", ip, 45000+r.IntN(1000)), Server: c.Server, StartUS: r.Int64N(horizon), StepUS: 100}
+			x.Msgs = []MsgSpec{{Dir: 0, Len: 5 + r.IntN(30)}, {Dir: 1, Len: 3 + r.IntN(30), GapUS: 500}}
+			spec.Convs = append(spec.Convs, x)
+			break
+		}
 	}
 	if cfg.Chatty && r.IntN(25) == 0 {
 		// thousands of direction changes in one stream: its segmentation table is
